@@ -84,8 +84,18 @@ func TestC28(t *testing.T) {
 			return nil
 		}
 		metas := []*types.StatusMeta{}
-		for _, id := range ids {
-			metas = append(metas, &types.StatusMeta{ID: id, Running: up, Healthy: up})
+		for k, id := range ids {
+			m := &types.StatusMeta{ID: id, Running: up, Healthy: up}
+			// what an agent reports for a workload that is up is not always "running and healthy": every third one runs
+			// with its health check not (yet) passed, every fifth one is healthy-only
+			if up && k%3 == 1 {
+				m.Healthy = false
+				rec.Count("workloads_reported_running_but_unhealthy", 1)
+			} else if up && k%5 == 2 {
+				m.Running = false
+				rec.Count("workloads_reported_healthy_only", 1)
+			}
+			metas = append(metas, m)
 		}
 		_, err := w.cl.C.SetWorkloadsStatus(w.cl.Ctx("agent"), metas, nil)
 		return err
